@@ -300,7 +300,10 @@ Offset(sh) == IF sh.via = "partial" THEN [n \in BNames(sh) |-> 0] ELSE BSub(Buil
 \* value part: units balance and the fee sits on the first input; blinding part:
 \* reward::output(keychain, builder, key_id, fees): one coinbase output of value reward(fees) under
 \* the regular switch commitment, kernel excess = output commitment - reward(fees)*H = blind*G.
-CbShapes == [cbfee : CbFeeClasses, fam : Fams, depth : 0..MaxDepth, block : BOOLEAN]
+\* block = TRUE: the pair is also put into a block whose transactions pay exactly these fees (one
+\* kernel carries at most 2^40-1, so the 64-bit extreme is checked stand-alone only)
+CbShapes == {sh \in [cbfee : CbFeeClasses, fam : Fams, depth : 0..MaxDepth, block : BOOLEAN] :
+               sh.block => sh.cbfee # "cfmax64"}
 IsCb(sh) == "cbfee" \in DOMAIN sh
 CbArgs(sh, seed, path) == [seed |-> seed, path |-> path, amt |-> <<"reward", sh.cbfee>>, mode |-> "Regular",
                            fam |-> sh.fam, fmt |-> sh.fam]
